@@ -637,7 +637,7 @@ class DisplayNameProperty(Property):
         el.text = resource.get_displayname()
 
     async def set_value(self, href, resource, el):
-        resource.set_displayname(el.text)
+        resource.set_displayname(el.text if el is not None else None)
 
 
 class GetETagProperty(Property):
@@ -856,7 +856,7 @@ class RefreshRateProperty(Property):
         el.text = resource.get_refreshrate()
 
     async def set_value(self, href, resource, el):
-        resource.set_refreshrate(el.text)
+        resource.set_refreshrate(el.text if el is not None else None)
 
 
 LOCK_SCOPE_EXCLUSIVE = "{DAV:}exclusive"
@@ -1451,7 +1451,7 @@ class CommentProperty(Property):
         el.text = resource.get_comment()
 
     async def set_value(self, href, resource, el):
-        resource.set_comment(el.text)
+        resource.set_comment(el.text if el is not None else None)
 
 
 class Backend:
